@@ -17,7 +17,7 @@ DEFAULT = dict(
     p_group_result=0.25, p_flatten=0.4, p_as=0.12, p_named=0.25,
     p_opt=0.25, p_group_param=0.25, p_soft=0.35, p_obj=0.5, p_nest=0.25,
     p_dup=0.06, p_cycle=0.1, p_unknown_dep=0.08, p_foreign_dep=0.12,
-    n_types=8, early_scopes=0.3, p_multi_dec=0.25, p_group_dec=0.3, p_dec_self=0.85, p_one_obj=0.0, p_soft_pattern=0.0, p_dec_chain=0.0, p_dup_as=0.03, p_dup_dec_key=0.0, p_variadic=0.12, p_ns=0.2, p_wrap_ty=0.08, p_group_chain=0.02, p_unexp=0.1,
+    n_types=8, early_scopes=0.3, p_multi_dec=0.25, p_group_dec=0.3, p_dec_self=0.85, p_one_obj=0.0, p_soft_pattern=0.0, p_dec_chain=0.0, p_dup_as=0.03, p_dup_dec_key=0.0, p_variadic=0.12, p_ns=0.2, p_wrap_ty=0.08, p_group_chain=0.02, p_unexp=0.1, p_late_scope_cycle=0.02, p_dec_extra=0.03,
 )
 
 PROFILES = {
@@ -31,18 +31,18 @@ PROFILES = {
                     p_dec_chain=0.3, p_dec_retry=0.2),
     "gfaults": dict(p_group_result=0.7, p_group_param=0.7, p_soft=0.1, p_flatten=0.4, n_types=3, p_fault=0.35,
                     w_decorate=0.5, early_scopes=0.8, w_scope=3, w_invoke=8),
-    "cycles": dict(p_cycle=0.45, p_defer=0.5, p_export=0.3, w_provide=12, w_invoke=4, w_decorate=0.5,
+    "cycles": dict(p_late_scope_cycle=0.2, p_cycle=0.45, p_defer=0.5, p_export=0.3, w_provide=12, w_invoke=4, w_decorate=0.5,
                    p_fault=0.0, n_types=4, p_named=0.1, p_group_result=0.2, p_group_param=0.3, w_scope=3,
                    p_unknown_dep=0.02, p_foreign_dep=0.05),
     "rejections": dict(p_dup=0.3, p_cycle=0.3, w_bad=2.5, w_decorate=3, p_multi_dec=0.5, n_types=5, p_export=0.2),
     "faults": dict(p_fault=0.4, p_callback=0.5, w_invoke=9, w_decorate=3, n_types=6),
-    "trees": dict(w_scope=5, max_scopes=8, p_export=0.25, early_scopes=0.5, w_decorate=2, p_fault=0.03),
+    "trees": dict(p_late_scope_cycle=0.08, w_scope=5, max_scopes=8, p_export=0.25, early_scopes=0.5, w_decorate=2, p_fault=0.03),
     "keys": dict(p_named=0.6, p_as=0.35, p_group_result=0.4, p_dup=0.2, n_types=3, w_decorate=1, p_fault=0.02),
     "groups": dict(p_group_result=0.7, p_group_param=0.7, p_soft=0.15, p_flatten=0.5, p_as=0.15, n_types=4,
                    w_decorate=0.6, p_fault=0.05, p_export=0.2, p_group_chain=0.08, p_wrap_ty=0.25),
     "soft": dict(p_group_result=0.6, p_group_param=0.7, p_soft=0.6, n_types=4, w_decorate=0.3, p_fault=0.03, p_one_obj=0.7, p_soft_pattern=0.35),
     "decor": dict(w_decorate=7, p_multi_dec=0.35, p_group_dec=0.35, n_types=5, p_fault=0.12, w_scope=3, p_dec_chain=0.35,
-                  p_dup_dec_key=0.04, p_ns=0.45, p_dec_retry=0.12),
+                  p_dup_dec_key=0.04, p_ns=0.45, p_dec_retry=0.12, p_dec_extra=0.12),
     "callbacks": dict(p_callback=0.8, p_fault=0.3, w_decorate=3, n_types=6),
     "dry": dict(p_dry=1.0, p_fault=0.0, p_callback=0.35, p_variadic=0.3, w_decorate=3),
 }
@@ -222,6 +222,66 @@ class Gen:
             obj = dict(k="obj", fields=leaves[:i] + [dict(k="obj", fields=leaves[i:])])
         return [obj]
 
+    def add_scope(self, parent):
+        self.ops.append(dict(op="scope", parent=parent))
+        self.parents.append(parent)
+        self.prov.append(dict())
+        self.decorated.append(set())
+        return len(self.parents) - 1
+
+    def gen_late_scope_cycle(self):
+        """a grandchild scope created AFTER an ancestor already registered something; a constructor
+        private to the grandchild; then an ancestor Provide that closes a cycle only the
+        grandchild's view contains"""
+        if len(self.parents) + 2 > self.p["max_scopes"]:
+            return
+        top = self.r.randrange(len(self.parents))
+        mid = self.add_scope(top)
+        tys = self.r.sample(range(self.p["n_types"]), 3)
+        x, y, z = ("s", tys[0], 0), ("s", tys[1], 0), ("s", tys[2], 0)
+        if any(k in self.prov[b] for k in (x, y, z) for b in range(len(self.parents))):
+            return
+        f = self.new_fn(params=[], results=[dict(k="single", ty=z[1], name=0, **{"as": []})], err=False)
+        self.ops.append(dict(op="provide", scope=top, fn=f["id"], export=False))
+        self.prov[top][z] = f["id"]
+        leaf = self.add_scope(mid)
+        f = self.new_fn(params=[self.leaf_param(y)], results=[dict(k="single", ty=x[1], name=0, **{"as": []})], err=False)
+        self.ops.append(dict(op="provide", scope=leaf, fn=f["id"], export=False))
+        self.prov[leaf][x] = f["id"]
+        f = self.new_fn(params=[self.leaf_param(x)], results=[dict(k="single", ty=y[1], name=0, **{"as": []})], err=False)
+        self.ops.append(dict(op="provide", scope=self.r.choice([top, mid]), fn=f["id"], export=False))
+        for sc, k in ((leaf, x), (top, z)):
+            f = self.new_fn(params=[self.leaf_param(k)], results=[], err=True)
+            self.ops.append(dict(op="invoke", scope=sc, fn=f["id"]))
+
+    def gen_dec_extra_result(self):
+        """a decorator with an extra result whose type NO constructor provides; it runs through an
+        Invoke in its own scope; child scopes created before and after that Invoke then ask for the
+        extra type"""
+        if len(self.parents) + 2 > self.p["max_scopes"]:
+            return
+        top = self.r.randrange(len(self.parents))
+        tys = self.r.sample(range(self.p["n_types"]), 2)
+        k, extra = ("s", tys[0], 0), ("s", tys[1], 0)
+        if any(q in self.prov[b] or q in self.decorated[b] for q in (k, extra) for b in range(len(self.parents))):
+            return
+        f = self.new_fn(params=[], results=[dict(k="single", ty=k[1], name=0, **{"as": []})], err=False)
+        self.ops.append(dict(op="provide", scope=top, fn=f["id"], export=False))
+        self.prov[top][k] = f["id"]
+        early = self.add_scope(top)
+        f = self.new_fn(params=[self.leaf_param(k)],
+                        results=[dict(k="single", ty=k[1], name=0, **{"as": []}), dict(k="single", ty=extra[1], name=0, **{"as": []})], err=False)
+        self.ops.append(dict(op="decorate", scope=top, fn=f["id"]))
+        self.decorated[top].update([k, extra])
+
+        def consume(sc, key):
+            g = self.new_fn(params=[self.leaf_param(key)], results=[], err=True)
+            self.ops.append(dict(op="invoke", scope=sc, fn=g["id"]))
+        consume(top, k)
+        late = self.add_scope(top)
+        for sc in self.r.sample([early, late, top], 3):
+            consume(sc, extra)
+
     def gen_group_chain(self):
         """group g with several feeders in one scope, an EARLIER feeder of g consuming another group h
         that has several feeders of its own; then g is consumed (nested group resolution while the
@@ -251,6 +311,8 @@ class Gen:
     def gen_provide(self):
         if self.chance(self.p["p_group_chain"]) and len(self.ops) < 16:
             return self.gen_group_chain()
+        if self.chance(self.p["p_late_scope_cycle"]) and len(self.ops) < 16:
+            return self.gen_late_scope_cycle()
         s = self.r.randrange(len(self.parents))
         export = self.chance(self.p["p_export"])
         target = 0 if export else s
@@ -505,6 +567,8 @@ class Gen:
     def gen_decorate(self):
         if self.chance(self.p.get("p_dec_retry", 0.0)) and len(self.ops) < 16:
             return self.gen_dec_retry()
+        if self.chance(self.p["p_dec_extra"]) and len(self.ops) < 16:
+            return self.gen_dec_extra_result()
         if self.chance(self.p.get("p_dec_chain", 0.0)) and len(self.ops) < 14:
             return self.gen_dec_chain()
         s = self.r.randrange(len(self.parents))
